@@ -877,6 +877,13 @@ func runC04(a vh.Args, o *vh.Oracle, r *vh.Result) error {
 		if err := readJSON(a.Replay, &c); err != nil {
 			return err
 		}
+		if c.Kind == "history" {
+			var h c04History
+			if err := readJSON(a.Replay, &h); err != nil {
+				return err
+			}
+			return c04RunHistory(a, o, r, &h, 0)
+		}
 		if c.Kind == "encode" {
 			_, err := c04Encode(a, o, r, &c)
 			return err
@@ -962,6 +969,9 @@ func runC04(a vh.Args, o *vh.Oracle, r *vh.Result) error {
 		return err
 	}
 	if err := c04S3(a, r, rng, nstore/2); err != nil {
+		return err
+	}
+	if err := c04Histories(a, o, r, rng); err != nil {
 		return err
 	}
 	return c04CLI(a, o, r, rng)
